@@ -677,6 +677,15 @@ func (c *client) loopWrite() {
 		switch c.filter.Do(req) {
 		case Continue:
 		case Stop:
+			// a filter has answered the request. What was encoded before it and not
+			// flushed, because this request was pending then, must not wait in the
+			// buffer for a request that may never come.
+			if len(c.pendingReqs) == 0 {
+				if err = c.enc.Flush(); err != nil {
+					c.logger.Warnf("loop write exit: %v", err)
+					return
+				}
+			}
 			continue
 		}
 
